@@ -250,21 +250,23 @@ def attrC22 (d : JoinDesc) (inp : Inputs) (buildLeftKnown : Option Bool) (cat : 
     | .error _ => false
   if !okOff then none else
   let singleI64 := d.lkeys.length == 1 && (d.lkeys.zip d.rkeys).all fun (i, j) => colTyAt cat 0 i == "i64" && colTyAt cat 1 j == "i64"
-  match o with
-  | .ok out =>
+  -- rows explained by one of the Semi/Anti switches (exact mirror, or over Parquet the signature)
+  let bySwitch (out : Table) : Option String :=
     match (switchSets d buildLeftKnown singleI64).find? (fun (_, dev, bl) =>
         match modelRun dev d inp bl with | .ok t => Spec.bagEq out (normTable t) | .error _ => false) with
     | some (f, _, _) => some f
     | none =>
-      -- Parquet: same gating as the F2 / F5 switches, decided by signature
       let sets := switchSets d buildLeftKnown singleI64
       if parquet && isSA d.jt && sets.any (fun x => x.1 == "C22-F2") && sigServed d out true then some "C22-F2"
       else if parquet && isSA d.jt && sets.any (fun x => x.1 == "C22-F5" && !x.2.2) && sigServed d out false then some "C22-F5"
       else none
+  match o with
+  | .ok out => bySwitch out
   | _ =>
     if sigMixedWidth d cat o msg then
+      -- neutralised twin: answered correctly, or wrong only by one of the listed Semi/Anti findings
       match neutral with
-      | some (.ok nout) => if acceptableOn c nout then some "C22-F3" else none
+      | some (.ok nout) => if acceptableOn c nout || (bySwitch nout).isSome then some "C22-F3" else none
       | _ => none
     else if sigEmptyBuild d buildLeftKnown o msg then some "C22-F4"
     else none
